@@ -37,17 +37,28 @@ def guard_rule(ctx, rule):
             ok, why = False, ''
             if kind == 'setdefault':
                 # obj2 = index.setdefault(k, obj); if obj2 is not obj: throw(...)
-                st = enclosing_stmt(fn, node)
-                var = dotted(st.targets[0]) if isinstance(st, ast.Assign) and len(st.targets) == 1 else None
+                # obj2 = index.setdefault(k, obj); if obj2 is not obj: throw(...)      -- or the same without the temporary:
+                # if index.setdefault(k, obj) is not obj: throw(...)
                 owner = norm(node.args[1])
-                tests = [t for t in g.nodes if t.kind == 'test' and var and norm(t.ast) == '%s is not %s' % (var, owner)]
-                sn = g.nodes_of(st)
-                ok = bool(tests) and bool(sn)
-                for s in sn:
-                    if not g.must_pass_after(s, tests, exits=[g.exit]): ok = False
-                for t in tests:
-                    ts = [y for y, lab in g.succ[t.id] if lab == 'T']
-                    if g.exit.id in g.reach(ts): ok = False
+                inline = [t for t in g.nodes if t.kind == 'test' and any(
+                    isinstance(c, ast.Compare) and len(c.ops) == 1 and isinstance(c.ops[0], ast.IsNot) and c.left is node and norm(c.comparators[0]) == owner for c in ast.walk(t.ast))]
+                if inline:
+                    ok = True
+                    for t in inline:
+                        ts = [y for y, lab in g.succ[t.id] if lab == 'T']
+                        if g.exit.id in g.reach(ts): ok = False
+                    var = norm(node)
+                else:
+                    st = enclosing_stmt(fn, node)
+                    var = dotted(st.targets[0]) if isinstance(st, ast.Assign) and len(st.targets) == 1 else None
+                    tests = [t for t in g.nodes if t.kind == 'test' and var and norm(t.ast) in ('%s is not %s' % (var, owner), 'not %s is %s' % (var, owner))]
+                    sn = g.nodes_of(st)
+                    ok = bool(tests) and bool(sn)
+                    for s in sn:
+                        if not g.must_pass_after(s, tests, exits=[g.exit]): ok = False
+                    for t in tests:
+                        ts = [y for y, lab in g.succ[t.id] if lab == 'T']
+                        if g.exit.id in g.reach(ts): ok = False
                 why = 'setdefault result is not checked with `%s is not %s` -> throw on every continuing path' % (var, owner)
             else:
                 st = node
